@@ -13,6 +13,8 @@ def _post(merged, tier):
         problems.append("the locked canary (std::mutex) was not explored cleanly")
     if c.get("copyshare_canary_detected", 0) < 1:
         problems.append("the copy-sharing canary (use count shared between copies made before the threads start) was not detected")
+    if c.get("foreign_canary_detected", 0) < 1:
+        problems.append("the foreign-static canary (gmtime(): state inside an uninstrumented library) was not detected")
     if c.get("tracer_alive", 0) < 1:
         problems.append("no shared-capable read was recorded for any libtins workload (instrumentation callbacks dead)")
     if problems:
@@ -34,9 +36,9 @@ SPEC = {
     "technique": ("schedule exploration over real threads on the real code: load/store footprint independence (partial-order argument covering "
                   "every interleaving of <= 16 threads) + exhaustive enumeration of all schedules with <= 2 preemptions under a cooperative "
                   "scheduler for dependent sets and canaries + free-running ThreadSanitizer pass"),
-    "rule": ("13 hand-written workloads (parse Ethernet/Dot1Q/IP/TCP; parse DNS + all section getters; build+serialize IP/UDP/DNS; RadioTap set/serialize/parse; "
-             "IPv4 reassembly; StreamFollower on a short connection with explicit timestamps; WEP decrypt; WPA2 handshake + CCMP (thorough: + TKIP) "
-             "decrypt; address parse/format/ranges/predicates; CRC-32 + checksums; PDU copy/move/clone; parsing through registered/unknown EtherTypes "
+    "rule": ("14 hand-written workloads (parse Ethernet/Dot1Q/IP/TCP; parse DNS + all section getters; build+serialize IP/UDP/DNS; RadioTap set/serialize/parse; "
+             "IPv4 reassembly; StreamFollower on a short connection with explicit timestamps; WEP decrypt; WPA2 beacon + 4-way handshake -> keys -> decrypt, CCMP capture and TKIP capture, each with passphrase+SSID, a WRONG "
+             "passphrase (must be rejected) and directly installed keys; address parse/format/ranges/predicates; CRC-32 + checksums; PDU copy/move/clone; parsing through registered/unknown EtherTypes "
              "and IP protocols (allocator registry); ICMPv6/DHCPv6 typed options), each creating, using and destroying only its own objects and "
              "returning a digest of everything observed; + 2 sweeps over the packet grammar (every class: build/serialize; parse + every generated "
              "getter); + ORIGIN dimension: 6 DESCENDANT workloads = threads A and B of three object sets whose objects the main thread derived "
@@ -46,14 +48,22 @@ SPEC = {
              "by the main thread before the threads start / destroyed by thread A while B runs; body: copy again (clone, assignment, Packet "
              "copy/move), getters, option search, serialize, mutate own copy through setters (add/remove option), serialize, destroy; these objects "
              "pre-exist the threads, so they are shared-capable for the tracer and the footprints of A and B must still be disjoint except for "
-             "read-only data (free() of such a block counts as a write of the whole block).  STAGE 1: libtins + workloads compiled with -fsanitize-coverage=trace-loads,trace-stores; "
+             "read-only data (free() of such a block counts as a write of the whole block).  STATE INSIDE UNINSTRUMENTED LIBRARIES: (a) every byte of "
+             "the writable data (.data/.bss = writable PT_LOAD minus RELRO, from dl_iterate_phdr) of a shared object other than this binary that "
+             "instrumented code touches counts as WRITTEN (its real writers are invisible), unless it is on the audited allow-list (one entry: "
+             "libstdc++'s classic std::ctype<char> facet object); (b) the documented non-reentrant entry points HMAC/SHA1/SHA224/SHA256/SHA384/"
+             "SHA512/MD5/MD4/RIPEMD160 with NULL output, inet_ntoa, gethostbyname, strtok, localtime, gmtime, ctime, asctime, strerror, "
+             "getenv vs setenv/putenv/unsetenv, rand/srand, pcap_geterr (per handle) are interposed at link time: a call from instrumented code "
+             "is a write of a per-function token (scheduling point before the call) and the static result buffer is reported as written after "
+             "the call (second scheduling point) => two workloads using the same entry point are dependent and explored by stage 2 "
+             "(race:non-reentrant-call:<fn>, race:foreign-static:<lib>+<offset>, divergence).  STAGE 1: libtins + workloads compiled with -fsanitize-coverage=trace-loads,trace-stores; "
              "malloc family, memcpy/memmove/memset/strlen/memcmp/bcmp/sprintf/snprintf, __cxa_guard_* and pthread_mutex_* interposed; every workload "
              "runs alone in a fresh forked process, cold then warm; every access is private (own stack, heap block allocated during the run) or "
              "shared-capable (anything else; recorded per byte with its symbol); for EVERY pair (Wi,Wj) incl. i==j: a byte written by one and accessed "
              "by the other makes the pair dependent (bytes written only inside a function-local-static guard region and accessed only after a check "
              "of that guard are ordered); independent sets get one finely interleaved representative schedule (round robin every 61 accesses, "
              "k = 2 for all 120 pairs incl. i==j + the 15 pairs of distinct DESCENDANT workloads, k = 3,4,8,16 for rotations, 6 and 16 with all DESCENDANT workloads) whose per-thread digests must equal the digests alone.  STAGE 2: for every dependent "
-             "pair (thorough: + triples) and always for four canaries (static scratch buffer; guarded static; mutex; use count shared between copies made before the threads start), real pthreads under a cooperative scheduler (one runnable at a time, semaphore "
+             "pair (thorough: + triples) and always for five canaries (static scratch buffer; guarded static; mutex; use count shared between copies made before the threads start; gmtime() = state inside libc), real pthreads under a cooperative scheduler (one runnable at a time, semaphore "
              "hand-off), scheduling points = accesses to the conflict bytes + guard and mutex operations, ALL schedules with <= 2 preemptions (levels "
              "0,1,2), each executed in a fresh forked process; verdicts: race = two threads enabled at conflicting accesses to the same byte, "
              "divergence = thread digest != digest alone, dead-lock, crash/hang under a schedule; the first failing schedule of every signature is "
